@@ -19,7 +19,9 @@
 if else
 @@ impl<C: CellType> Expr<C> > fn val @ d3 r
 @@ impl<C: CellType> Expr<C> > fn val @ sig
-        ensures forall|rho: spec_fn(isize) -> nat| #[trigger] eval(&r, rho) == coef.v()
+        ensures forall|rho: spec_fn(isize) -> nat| #[trigger] eval(&r, rho) == coef.v(),
+                // a constant is recognised as a constant (used by unit u10_optloop)
+                spec_constant(&r).is_some() && spec_constant(&r).unwrap().v() == coef.v(),
 @@ impl<C: CellType> Expr<C> > fn val @ body_start
         proof {
             C::eq_all(); C::facts(); C::v_lt(coef); lemma_pow2_pos(C::bits());
@@ -36,7 +38,8 @@ if else
 
 @@ impl<C: CellType> Expr<C> > fn var @ d3 r
 @@ impl<C: CellType> Expr<C> > fn var @ sig
-        ensures forall|rho: spec_fn(isize) -> nat| #[trigger] eval(&r, rho) == rho(var) as int % m_of(C::bits())
+        ensures forall|rho: spec_fn(isize) -> nat| #[trigger] eval(&r, rho) == rho(var) as int % m_of(C::bits()),
+                spec_constant(&r).is_none(),
 @@ impl<C: CellType> Expr<C> > fn var @ body_start
         proof {
             C::facts(); lemma_pow2_pos(C::bits());
@@ -64,7 +67,8 @@ if else if else
 @@ impl<C: CellType> Expr<C> > fn constant @ d3 r
 @@ impl<C: CellType> Expr<C> > fn constant @ sig
         // "constant() == Some(c)  ==>  the expression evaluates to c under every assignment"
-        ensures r.is_some() ==> forall|rho: spec_fn(isize) -> nat| #[trigger] eval(self, rho) == r.unwrap().v()
+        ensures r.is_some() ==> forall|rho: spec_fn(isize) -> nat| #[trigger] eval(self, rho) == r.unwrap().v(),
+                r == spec_constant(self),
 @@ impl<C: CellType> Expr<C> > fn constant @ body_start
         proof {
             C::facts(); lemma_pow2_pos(C::bits()); lemma_small_mod(0, pow2(C::bits()));
